@@ -52,7 +52,13 @@ var hashOutNames = map[string]bool{"x.out": true, "x1.out": true, "x2.out": true
 
 // PoisonCache replaces every cached output file of //p:x below repo/../cache by different bytes (a new inode: the
 // outputs in plz-out may be hard links of the cache entries and must not change with them).
-func PoisonCache(repo string) int {
+func PoisonCache(repo string) int { return poisonCache(repo, false) }
+
+// PoisonCacheInPlace overwrites the cached artifacts WITHOUT replacing their inodes: whatever plz recorded on the file
+// (its user.plz_hash* extended attributes) stays attached to the changed bytes.
+func PoisonCacheInPlace(repo string) int { return poisonCache(repo, true) }
+
+func poisonCache(repo string, inPlace bool) int {
 	n := 0
 	filepath.WalkDir(filepath.Join(repo, "..", "cache"), func(p string, d fs.DirEntry, err error) error {
 		if err != nil || d.IsDir() || !hashOutNames[d.Name()] {
@@ -64,8 +70,12 @@ func PoisonCache(repo string) int {
 		}
 		dirfi, _ := os.Stat(filepath.Dir(p))
 		os.Chmod(filepath.Dir(p), 0o755)
-		os.Remove(p)
-		if os.WriteFile(p, []byte("poison\n"), 0o644) == nil {
+		if inPlace {
+			os.Chmod(p, 0o644)
+		} else {
+			os.Remove(p)
+		}
+		if os.WriteFile(p, []byte("poison\n"), 0o644) == nil { // (WriteFile truncates an existing file in place)
 			os.Chmod(p, fi.Mode().Perm())
 			n++
 		}
@@ -106,6 +116,10 @@ func (c *HashFam) Edits(s Src) []Edit {
 	if c.Cache {
 		es = append(es, Edit{Name: "poison-cache+rm-plz-out", Src: s.Clone(), Kind: "poison-cache+rm-plz-out", Pre: func(repo string) {
 			atomic.AddInt64(&PoisonedFiles, int64(PoisonCache(repo)))
+			os.RemoveAll(filepath.Join(repo, "plz-out"))
+		}})
+		es = append(es, Edit{Name: "tamper-cache-in-place+rm-plz-out", Src: s.Clone(), Kind: "tamper-cache-in-place+rm-plz-out", Pre: func(repo string) {
+			atomic.AddInt64(&PoisonedFiles, int64(PoisonCacheInPlace(repo)))
 			os.RemoveAll(filepath.Join(repo, "plz-out"))
 		}})
 	}
